@@ -114,6 +114,19 @@ int main(int argc, char **argv)
 						       types[t], codecs[c], qn, kind, (seed + n) & 0xff, n, r, csum((unsigned char *) got, r), full ? "true" : "false");
 						parr("got", (unsigned char *) got, full ? r : 0);
 						printf("}\n");
+						/* history independence of the reader: now and then a SHORT payload right after a long one */
+						if (!withwire && n >= 100 && n % 7 == 0) {
+							int n2 = 2 + (n / 7) % 40, r2, at2;
+							gen(pay, n2, kind, seed + n2);
+							wirelen = -1;
+							srv_answer(types[t], qn ? longname : shortname, 0x1234, codecs[c], (char *) pay, n2);
+							r2 = wirelen >= 0 ? cli_extract(got, sizeof(got), &at2) : -9;
+							if (r2 < 0) r2 = 0;
+							printf("{\"e\":\"Down\",\"qt\":%d,\"codec\":\"%c\",\"qlen\":%d,\"kind\":%d,\"seed\":%d,\"len\":%d,\"glen\":%d,\"gsum\":%u,\"full\":true,",
+							       types[t], codecs[c], qn, kind, (seed + n2) & 0xff, n2, r2, csum((unsigned char *) got, r2));
+							parr("got", (unsigned char *) got, r2);
+							printf("}\n");
+						}
 					}
 					printf("{\"e\":\"Reset\"}\n");
 				}
